@@ -180,6 +180,55 @@ theorem hold_first (w : Nat) (d : K) (v : K) : (Sim.Hold.step w ⟨w, v⟩ d) = 
 theorem hold_within_block (w c : Nat) (hc : c ≠ w) (d v : K) :
     (Sim.Hold.step w ⟨c, v⟩ d) = (⟨c + 1, v⟩, v, false) := by
   simp [Sim.Hold.step, hc]
+theorem holdRun_spec (w : Nat) (hw : 0 < w) (dflt : K) : ∀ (m c : Nat) (val : K) (ds : List K), 1 ≤ c → c ≤ w → m ≤ ds.length →
+    holdRun w m ⟨c, val⟩ ds = (List.range m).map (fun t => if t < w - c then val else ds.getD ((t - (w - c)) / w) dflt) := by
+  intro m
+  induction m with
+  | zero => intro c val ds _ _ _; simp [holdRun]
+  | succ m ih =>
+    intro c val ds hc1 hcw hlen
+    cases ds with
+    | nil => simp at hlen
+    | cons d rest =>
+      simp only [List.length_cons] at hlen
+      rw [List.range_succ_eq_map, List.map_cons, List.map_map]
+      by_cases hcw' : c = w
+      · subst hcw'
+        have hstep : Sim.Hold.step c ⟨c, val⟩ d = (⟨1, d⟩, d, true) := hold_first c d val
+        simp only [holdRun, hstep, if_true]
+        rw [ih 1 d rest (le_refl 1) hw (by omega)]
+        simp only [Nat.sub_self, Nat.not_lt_zero, if_false, Nat.sub_zero, Nat.zero_div, List.getD_cons_zero, List.cons.injEq, true_and]
+        apply List.map_congr_left
+        intro t _
+        simp only [Function.comp, Nat.not_lt_zero, if_false, Nat.sub_zero]
+        by_cases ht : t < c - 1
+        · have h0 : (t + 1) / c = 0 := Nat.div_eq_of_lt (by omega)
+          simp [ht, h0]
+        · have h1 : (t + 1) / c = (t - (c - 1)) / c + 1 := by
+            have : t + 1 = (t - (c - 1)) + c := by omega
+            rw [this, Nat.add_div_right _ hw]
+          simp [ht, h1]
+      · have hstep : Sim.Hold.step w ⟨c, val⟩ d = (⟨c + 1, val⟩, val, false) := hold_within_block w c hcw' d val
+        simp only [holdRun, hstep, Bool.false_eq_true, if_false]
+        rw [ih (c + 1) val (d :: rest) (by omega) (by omega) (by simp; omega)]
+        have h0 : 0 < w - c := by omega
+        simp only [h0, if_true, List.cons.injEq, true_and, Bool.false_eq_true, if_false]
+        apply List.map_congr_left
+        intro t _
+        simp only [Function.comp]
+        by_cases ht : t < w - (c + 1)
+        · have : t + 1 < w - c := by omega
+          simp [ht, this]
+        · have : ¬ (t + 1 < w - c) := by omega
+          have hidx : (t + 1 - (w - c)) = (t - (w - (c + 1))) := by omega
+          simp [ht, this, hidx]
+
+/-- **the k-th factor delivered by the rectangular model is draw ⌊k/w⌋**, for every width, every number of requests and every
+source of draws (started as the constructor leaves it: `current == width`) -/
+theorem hold_kth_output (w : Nat) (hw : 0 < w) (dflt v : K) (m : Nat) (ds : List K) (hlen : m ≤ ds.length) :
+    holdRun w m ⟨w, v⟩ ds = (List.range m).map (fun t => ds.getD (t / w) dflt) := by
+  rw [holdRun_spec w hw dflt m w v ds hw (le_refl w) hlen]
+  apply List.map_congr_left; intro t _; simp
 end hold
 
 /-! ## the rectangular model's reported correlations: exact when aligned, refuted otherwise -/
